@@ -65,6 +65,57 @@ theorem info_lookup (i : InfoM) (k : Bytes) (ov : Option BVal) (h : (k, ov) ∈ 
     (infoDict i).lookup k = ov :=
   lookup_struct _ (infoFields_nodup i) k ov h
 
+/-! ### key names are text -/
+
+theorem keysUtf8_insertSorted (k : Bytes) (v : BVal) (hk : isUtf8 k = true) :
+    ∀ (d : BDict), keysUtf8 d = true → keysUtf8 (insertSorted k v d) = true
+  | .nil, _ => by simp [insertSorted, keysUtf8, hk]
+  | .cons k' v' t, h => by
+    simp only [keysUtf8, Bool.and_eq_true] at h
+    unfold insertSorted
+    split
+    · simp [keysUtf8, hk, h.1, h.2]
+    · split
+      · simp [keysUtf8, hk, h.2]
+      · simp only [keysUtf8, Bool.and_eq_true]
+        exact ⟨h.1, keysUtf8_insertSorted k v hk t h.2⟩
+
+theorem keysUtf8_dictOfFields (fs : List (Bytes × BVal)) (h : ∀ f ∈ fs, isUtf8 f.1 = true) :
+    keysUtf8 (dictOfFields fs) = true := by
+  unfold dictOfFields
+  suffices ∀ (fs : List (Bytes × BVal)), (∀ f ∈ fs, isUtf8 f.1 = true) →
+      ∀ d, keysUtf8 d = true → keysUtf8 (fs.foldl (fun d f => insertSorted f.1 f.2 d) d) = true from
+    this fs h .nil rfl
+  intro fs
+  induction fs with
+  | nil => intro _ d hd; exact hd
+  | cons f t ih =>
+    intro hf d hd
+    simp only [List.foldl_cons]
+    exact ih (fun g hg => hf g (List.mem_cons_of_mem _ hg)) _
+      (keysUtf8_insertSorted f.1 f.2 (hf f (List.mem_cons_self ..)) d hd)
+
+theorem key_names_utf8 : ∀ k ∈ ["announce", "announce-list", "comment", "created by", "creation date", "encoding", "info", "nodes",
+    "private", "piece length", "name", "source", "pieces", "length", "md5sum", "files", "update-url", "path"],
+    isUtf8 (str k) = true := by decide +kernel
+
+theorem infoDict_keysUtf8 (i : InfoM) : keysUtf8 (infoDict i) = true := by
+  unfold infoDict
+  apply keysUtf8_dictOfFields
+  intro f hf
+  have hm := mem_present _ f hf
+  have hkey : f.1 ∈ (infoFields i).map (·.1) := List.mem_map.mpr ⟨_, hm, rfl⟩
+  unfold infoFields at hkey
+  cases hmode : i.mode with
+  | single n md5 =>
+    simp only [hmode, modeFields, List.cons_append, List.nil_append, List.map_cons, List.map_nil, List.mem_cons,
+      List.mem_nil_iff, or_false] at hkey
+    rcases hkey with h | h | h | h | h | h | h | h <;> rw [h] <;> exact key_names_utf8 _ (by simp)
+  | multiple fs =>
+    simp only [hmode, modeFields, List.cons_append, List.nil_append, List.map_cons, List.map_nil, List.mem_cons,
+      List.mem_nil_iff, or_false] at hkey
+    rcases hkey with h | h | h | h | h | h | h <;> rw [h] <;> exact key_names_utf8 _ (by simp)
+
 /-! ### hex -/
 
 theorem unhexNibble_hexNibble (n : Nat) (h : n < 16) : unhexNibble (hexNibble n) = some n := by
@@ -176,6 +227,8 @@ theorem readInfoC_dict (urlOk : Bytes → Bool) (i : InfoM) (h : i.Typed urlOk) 
   unfold readInfoC
   rw [info_reads_back i hok 2048 (by omega) r, info_toBVal]
   dsimp only
+  rw [infoDict_keysUtf8 i]
+  simp only [Bool.not_true, Bool.false_eq_true, if_false]
   rw [info_lookup i (str "name") (some (bstr i.name)) (by simp [infoFields]),
     info_lookup i (str "piece length") (some (bnat i.pieceLength)) (by simp [infoFields]),
     info_lookup i (str "pieces") (some (bstr i.pieces)) (by simp [infoFields]),
